@@ -377,3 +377,71 @@ ob("c12_short_strings_rejected", "chess::move_struct::verif_move::c12_short_stri
 ob("position_step_contract", "uci::verif_uci::position_step_contract", ["C12", "C15"],
    "slice verif_position_step vs abstract parser/generator/push_history: played iff parsed and member of the checked list (exactly once, that move); else error, nothing played; length guard at 400",
    ["uci::command_position (per-move step)"], timeout=900)
+
+# =================================================================================================
+# C17 -- FEN import is faithful and rejects malformed text without crashing
+# =================================================================================================
+prop("C17",
+     level="other",
+     slices=["verif_fen_step", "verif_fen_side", "verif_fen_castling", "verif_fen_ep", "verif_fen_tail"],
+     explanation="Game::new as a whole is beyond CBMC (string tokenisation + anyhow; measured). Proved, each on its full symbolic domain, are the "
+                 "verbatim slices of it: the board scanner's per-character step (all chars x all scanner states: never panics, stays on the board, "
+                 "accepts only `/` after a complete rank, fitting digits 1..8 and piece letters, writes exactly the squares the character denotes "
+                 "with published key and piece-square value, totals in step), the side / castling / e.p. field parsers (all ASCII strings of 1..5 "
+                 "bytes: accepted iff well-formed, value as written, other bits untouched) and the tail (both kings required, game carries exactly "
+                 "the scanned data, hash completed with the state key). NOT machine-checked: tokenisation, the loop headers, field order (glue). "
+                 "Level `other`: proof for the slices, composition by the induction argument of DESIGN.md, glue read + tested natively.",
+     assumptions=["glue of Game::new (split_ascii_whitespace, `for character in pieces.chars()`, `row != 0 || col != 8` test, order of fields) is read, not proved",
+                  "non-ASCII bytes (>= 128) in the side/castling/e.p. fields are not covered by the field harnesses (the scanner step covers all chars)",
+                  "sane positions: score bound holds (an absurd position with > 36 queens of one colour can overflow the i16 score in a checked build)",
+                  "std::backtrace::Backtrace::capture has no effect on program state (stubbed); a forgotten anyhow::Error changes nothing observable",
+                  "legal moves of the imported position: C01 on the imported view"],
+     not_machine_checked=["Game::new tokenisation and loop glue", "half-move / full-move counter fields (ignored by the engine)"])
+_F17 = ["Game::new (slices)", "Piece::from_char_ascii", "Position::new_assert", "GameState::set_*"]
+ob("fen_step_contract", "chess::verif_chess::fen::fen_step_contract", ["C17", "C04", "C16", "C15"],
+   "scanner step, all chars x all (row,col): no panic; Ok => on board, character well-formed in context, exactly its squares written with published key / piece-square value, totals in step",
+   _F17, timeout=1800)
+for _n in ["1", "2", "3"]:
+    ob("fen_side_" + _n, "chess::verif_chess::fen::fen_side_" + _n, ["C17"], f"side field, all {_n}-byte ASCII strings: Ok iff exactly `w` / `b`, value as written", _F17, timeout=900)
+    ob("fen_ep_" + _n, "chess::verif_chess::fen::fen_ep_" + _n, ["C17", "C15"],
+       f"e.p. field, all {_n}-byte ASCII strings x side x rights: no panic; Ok iff `-` or file a..h + rank 6/3 for the side to move; file as written; rights untouched", _F17, timeout=900)
+for _n in ["1", "2", "3", "4", "5"]:
+    ob("fen_castling_" + _n, "chess::verif_chess::fen::fen_castling_" + _n, ["C17"],
+       f"castling field, all {_n}-byte ASCII strings: Ok iff `-` or distinct letters of KQkq; rights == letters; e.p. nibble untouched", _F17, timeout=900)
+ob("fen_tail_contract", "chess::verif_chess::fen::fen_tail_contract", ["C17", "C04"],
+   "tail of Game::new: both kings required; game carries scanned board/caches/totals/side; one state entry; hash ^= state key; king cache = scanned king squares", _F17, timeout=900)
+ob("piece_letters_roundtrip", "chess::piece::verif_piece::piece_letters_roundtrip", ["C17", "C11"],
+   "as_char_ascii is the FEN letter; from_char_ascii inverts it and accepts exactly the 12 letters among all chars", ["Piece::as_char_ascii", "Piece::from_char_ascii"], timeout=300)
+
+# =================================================================================================
+# C11 -- exported FEN describes the position and re-imports to the same game
+# =================================================================================================
+prop("C11",
+     level="other",
+     slices=["verif_fen_rank", "verif_fen_fields"],
+     explanation="Game::fen as a whole is beyond CBMC (String growth with symbolic lengths exhausts memory, measured). Proved on their full "
+                 "symbolic domains are its two verbatim slices: the per-rank writer (for each of the 8 ranks and any contents of the rank: exactly "
+                 "the standard placement text -- letters, run-length digits, `/` except after rank 1) and the field writer (side, castling rights, "
+                 "e.p. square with rank 6 for White / 3 for Black to move, `0`, full-move number), plus the letter functions (as_char_ascii is the "
+                 "FEN letter, from_char_ascii its inverse). The re-import half is by composition with C17 (scanner step and field parsers accept "
+                 "exactly this text and rebuild the view), C04 (hash is a function of the view) and C01 (moves are a function of the view); the "
+                 "whole fen() -> Game::new round trip is executed only by a native test. Level `other`: slices proved, glue and round trip tested.",
+     assumptions=["String::push / String::push_str append exactly the given bytes and nothing else (std contract; stubbed by a byte sink under Kani, real String in the native test)",
+                  "glue of fen(): `for row in (0..8).rev()` (rank 8 first) and concatenation order are read + covered by the native round-trip test only",
+                  "full-move numbers above 2 (more than 3 recorded moves) are formatted by std's integer Display (trusted)",
+                  "re-import: composition with C17 / C04 / C01, not one machine-checked statement"],
+     not_machine_checked=["fen() loop header (rank order) and concatenation", "the executed export -> import round trip (native test)"])
+_F11 = ["Game::fen (slices)", "Piece::as_char_ascii", "GameState::en_passant", "GameState::*_castling"]
+for _r in range(1, 9):
+    ob(f"fen_rank_{_r}", f"chess::verif_chess::fen::fen_rank_{_r}", ["C11"],
+       f"slice verif_fen_rank, rank {_r}, any contents: appended bytes == standard placement text of the rank", _F11, timeout=900)
+for _k in ["0", "2"]:
+    ob(f"fen_fields_{_k}_moves", f"chess::verif_chess::fen::fen_fields_{_k}_moves", ["C11"],
+       f"slice verif_fen_fields, any side / state byte, {_k} recorded moves: side, rights, e.p. square (6/3 by side), 0, full-move number", _F11, timeout=900)
+ob("native_fen_roundtrip", "chess::verif_chess::fen::native_fen_roundtrip", ["C11", "C17"],
+   "TEST (native, concrete): fen() == standard text and Game::new(fen()) has the same view, hash and legal moves, along the 82-ply test game and six lines covering e.p. on a/d/g/h files, one-sided rights, lost rights, promotion",
+   ["Game::fen", "Game::new (whole functions, concrete inputs)"], backend="native", complete=False, counts_as_proof=False,
+   bounded_note="concrete native run of the glue; not a proof")
+for _o in OBS:
+    if _o["name"] in ("fen_ep_1", "fen_ep_2", "fen_castling_1", "fen_castling_2", "fen_castling_4", "fen_side_1", "fen_step_contract", "fen_tail_contract"):
+        _o["props"] = _o["props"] + ["C11"]     # the importer half of the round trip
